@@ -998,9 +998,16 @@ class DateTime(datetime.datetime, Date):
         # Count the days from the starting point (see previous()): stepping
         # from the last candidate keeps the 01:00 a skipped midnight was
         # normalized to for all the following days.
+        # A candidate normalized onto another day (its time of day, or the
+        # whole day, does not exist there) is not an occurrence of that day.
+        origin = datetime.date(start.year, start.month, start.day)
         days = 1
         dt = start.add(days=days)
-        while dt.day_of_week != day_of_week or dt <= start:
+        while (
+            dt.day_of_week != day_of_week
+            or dt <= start
+            or dt.date() != origin + datetime.timedelta(days=days)
+        ):
             days += 1
             dt = start.add(days=days)
 
@@ -1028,9 +1035,16 @@ class DateTime(datetime.datetime, Date):
         # candidate: a calendar day skipped by the timezone (e.g. 2011-12-30
         # in Pacific/Apia) is normalized forward onto the starting day again,
         # which would otherwise never terminate.
+        # A candidate normalized onto another day (its time of day, or the
+        # whole day, does not exist there) is not an occurrence of that day.
+        origin = datetime.date(start.year, start.month, start.day)
         days = 1
         dt = start.subtract(days=days)
-        while dt.day_of_week != day_of_week or dt >= start:
+        while (
+            dt.day_of_week != day_of_week
+            or dt >= start
+            or dt.date() != origin - datetime.timedelta(days=days)
+        ):
             days += 1
             dt = start.subtract(days=days)
 
